@@ -602,6 +602,18 @@ func tryReplay(P *Program, rep *FuncReport, o *Obligation, r *SolveResult, out m
 	ra := Solve(fa, 10, false, false)
 	out["replay_query"] = fa
 	out["replay_query_status"] = ra.Status
+	// a confirmation needs the real run to have used the model's input: when part of it could not be rebuilt (and was
+	// left at its zero value, unpinned) the query below would still be satisfied by the model's own value for that part
+	partial := false
+	for _, n := range rc.notes {
+		if strings.Contains(n, "not pinned") {
+			partial = true
+		}
+	}
+	if partial {
+		out["replay"] = "not confirmed: part of the model's input could not be reconstructed for the real run (see replay_notes)"
+		return false
+	}
 	if ra.Status == "sat" {
 		out["replay"] = "confirmed: with the inputs of the model the real function returned the observed values, which violate the clause"
 		return true
